@@ -164,6 +164,12 @@ func (m *model) crossCheck(t fataler, lookup func(string) string, reverse func(s
 				return
 			}
 		}
+		for v, s := range m.freed {
+			if got, ok := reverse(v); ok && got != "" {
+				m.fail(t, "reverse-stale", "reverse lookup of %s = %q although %s gave it up and nobody was handed it since", v, got, s)
+				return
+			}
+		}
 	}
 }
 
